@@ -217,6 +217,32 @@ def judge(ctx, c, answers):
             same = (v == v1) if named else (lang_fp(r.get('ok')) == lang_fp(r1['ok']))
             if not same:
                 ctx.violation('result-depends-on-' + tag, {'case': c, 'first': str(v1)[:300], 'other': str(v)[:300]})
+        # stale state: modify the first argument in place (a legal edit), call again, compare with a fresh equal object
+        k0 = kinds[0]
+        if k0 in ('dfa', 'nfa', 'pda', 'cfg') and named:
+            spec2 = copy.deepcopy(c['args'])
+            x = spec2[k0]
+            args5 = [BUILDERS[k](c['args'][k]) for k in kinds]
+            call(f, *args5, limit=20)
+            if k0 == 'cfg':
+                extra = [x['S'], max(r[1] for r in x['R']) + 1, [['t', (x['Sigma'] or ['a'])[0]]]]
+                from gambatools.cfg import Rule, Alternative, Terminal, Variable
+                if (x['Sigma'] or ['a'])[0] in x['Sigma']:
+                    x['R'].append(extra)
+                    args5[0].R.append(Rule(Variable(x['S']), Alternative([Terminal(extra[2][0][1])])))
+            else:
+                q = x['Q'][0]
+                x['F'] = [y for y in x['F'] if y != q] if q in x['F'] else x['F'] + [q]
+                if q in args5[0].F:
+                    args5[0].F.discard(q)
+                else:
+                    args5[0].F.add(q)
+            r5 = call(f, *args5, limit=20)
+            r6 = call(f, *[BUILDERS[k](spec2[k]) for k in kinds], limit=20)
+            v5 = canon_result(r5['ok']) if 'ok' in r5 else 'ERR'
+            v6 = canon_result(r6['ok']) if 'ok' in r6 else 'ERR'
+            if v5 != v6:
+                ctx.violation('stale-result-after-argument-edit', {'case': c, 'edited': spec2[k0], 'on_edited_object': str(v5)[:300], 'on_fresh_object': str(v6)[:300]})
         ctx.record('%s/%s' % (c['op'], core.digest(c['args'])), v1 if named else lang_fp(r1['ok']))
         ctx.count(c['op'])
         ctx.case({'op': c['op'], 'args': c['args']}, True)
